@@ -892,3 +892,191 @@ Proof.
   fold (sercfg_of (with_mode m c) ns). fold (sercfg_of c ns).
   rewrite R1, R2, L1, L2. repeat split; discriminate.
 Qed.
+
+(** ** C: the namespaces dictionary.  Two documents rendered under two dictionaries spell IRIs
+    differently ([<iri>] or [prefix:local]) and declare different prefixes.  [expand_text]
+    works on the token stream of the Spec lexer: it drops the leading PREFIX directives and
+    replaces every prefixed name by the IRI it denotes under the document's OWN declarations
+    ([decls]).  After expansion the two documents are the same token stream. *)
+Definition expand_tok (d : list (str * str)) (t : token) : token :=
+  match t with
+  | TPname p l => match lookup d p with Some n => TIri (n ++ l) | None => t end
+  | _ => t
+  end.
+
+Fixpoint strip_directives (ts : list token) : list token :=
+  match ts with
+  | TPrefixKw :: _ :: _ :: r => strip_directives r
+  | _ => ts
+  end.
+
+Definition expand_text (ts : list token) : list token :=
+  map (expand_tok (decls ts)) (strip_directives ts).
+
+(** the serialiser configuration with an empty dictionary: every IRI in full *)
+Definition raw_z (z : sercfg) : sercfg :=
+  {| z_ns := []; z_tau := z_tau z; z_disable_comments := z_disable_comments z; z_mode := z_mode z |}.
+
+Lemma expand_iri_tok ns u : ns_ok ns = true -> expand_tok (map swap ns) (iri_tok ns u) = TIri u.
+Proof.
+  intros Hns. unfold iri_tok. destruct (best_ns ns u) as [[n p]|] eqn:E; [|reflexivity].
+  destruct (WellFormedTokens.best_ns_spec _ _ _ _ E) as [Hin [Hu _]]. cbn [expand_tok].
+  rewrite (lookup_swap ns n p (ns_ok_nodup ns Hns) Hin). now rewrite <- Hu.
+Qed.
+
+Lemma expand_type_toks ns t : ns_ok ns = true ->
+  map (expand_tok (map swap ns)) (type_toks ns t) = type_toks [] t.
+Proof.
+  intros Hns. unfold type_toks. destruct (prefixb c_STARTING_CHAR_FOR_SHAPE_NAME t).
+  - destruct (strip_label t) as [u|]; [|reflexivity]. cbn [map]. now rewrite (expand_iri_tok ns u Hns).
+  - destruct (mem_str t kinds); [reflexivity|]. cbn [map]. now rewrite (expand_iri_tok ns t Hns).
+Qed.
+
+Lemma expand_target_toks z p t : ns_ok (z_ns z) = true ->
+  map (expand_tok (map swap (z_ns z))) (target_toks z p t) = target_toks (raw_z z) p t.
+Proof.
+  intros Hns. unfold target_toks. cbn [raw_z z_tau z_ns].
+  destruct (str_eqb p (z_tau z)).
+  - cbn [map]. rewrite map_app, (expand_type_toks _ t Hns). reflexivity.
+  - apply expand_type_toks, Hns.
+Qed.
+
+Lemma map_or_join (f : token -> token) (l : list (list token)) :
+  f TOr = TOr -> map f (or_join l) = or_join (map (map f) l).
+Proof.
+  intros Hf. induction l as [|x l IH]; [reflexivity|]. destruct l as [|y l'].
+  - reflexivity.
+  - change (map (map f) (x :: y :: l')) with (map f x :: map f y :: map (map f) l').
+    rewrite !or_join_cons2, !map_app. cbn [map]. rewrite Hf. do 2 f_equal. exact IH.
+Qed.
+
+Lemma expand_card_toks d c : map (expand_tok d) (card_toks c) = card_toks c.
+Proof. destruct c as [k| | |]; try reflexivity. unfold card_toks. destruct (N.eqb k 1); reflexivity. Qed.
+
+Lemma expand_stmt_toks z s b : ns_ok (z_ns z) = true ->
+  map (expand_tok (map swap (z_ns z))) (stmt_toks z s b) = stmt_toks (raw_z z) s b.
+Proof.
+  intros Hns. unfold stmt_toks. rewrite !map_app, expand_card_toks. cbn [map].
+  rewrite (expand_iri_tok _ (s_prop s) Hns). cbn [raw_z z_ns].
+  f_equal; [destruct (s_inv s); reflexivity|]. f_equal. f_equal; [|f_equal; destruct b; reflexivity].
+  destruct (s_choice s).
+  - rewrite map_or_join by reflexivity. rewrite map_map. f_equal. apply map_ext. intros t.
+    now apply expand_target_toks.
+  - now apply expand_target_toks.
+Qed.
+
+Lemma expand_stmts_toks z l : ns_ok (z_ns z) = true ->
+  map (expand_tok (map swap (z_ns z))) (stmts_toks z l) = stmts_toks (raw_z z) l.
+Proof.
+  intros Hns. induction l as [|s l IH]; [reflexivity|]. destruct l as [|s' l'].
+  - now apply expand_stmt_toks.
+  - rewrite !stmts_toks_cons2, map_app, IH. now rewrite (expand_stmt_toks z s false Hns).
+Qed.
+
+Lemma expand_label_tok ns name : ns_ok ns = true ->
+  expand_tok (map swap ns) (label_tok ns name) = label_tok [] name.
+Proof.
+  intros Hns. unfold label_tok. destruct (strip_label name) as [u|]; [|reflexivity].
+  now rewrite (expand_iri_tok ns u Hns).
+Qed.
+
+Lemma expand_shapes_toks z l : ns_ok (z_ns z) = true ->
+  map (expand_tok (map swap (z_ns z))) (flat_map (shape_toks z) l) = flat_map (shape_toks (raw_z z)) l.
+Proof.
+  intros Hns. induction l as [|sh l IH]; [reflexivity|].
+  cbn [flat_map]. rewrite map_app, IH. f_equal. unfold shape_toks. cbn [map].
+  rewrite (expand_label_tok _ _ Hns), map_app, (expand_stmts_toks z _ Hns). reflexivity.
+Qed.
+
+Lemma label_tok_not_kw ns name : label_tok ns name <> TPrefixKw.
+Proof.
+  unfold label_tok, iri_tok. destruct (strip_label name) as [u|]; [|discriminate].
+  destruct (best_ns ns u) as [[n p]|]; discriminate.
+Qed.
+
+Lemma strip_directives_head t r : t <> TPrefixKw -> strip_directives (t :: r) = t :: r.
+Proof. intros H. destruct t; try reflexivity. congruence. Qed.
+
+Lemma strip_directives_doc z l : strip_directives (doc_toks z l) = flat_map (shape_toks z) l.
+Proof.
+  unfold doc_toks, prefix_toks. induction (z_ns z) as [|[n p] ns IH].
+  - cbn [flat_map app]. destruct l as [|sh l]; [reflexivity|]. cbn [flat_map].
+    change (shape_toks z sh ++ flat_map (shape_toks z) l)
+      with (label_tok (z_ns z) (sh_name sh) ::
+            (TLBrace :: stmts_toks z (sh_stmts sh) ++ [TRBrace]) ++ flat_map (shape_toks z) l).
+    apply strip_directives_head, label_tok_not_kw.
+  - cbn [flat_map app fst snd strip_directives]. exact IH.
+Qed.
+
+Theorem expand_text_doc z l : ns_ok (z_ns z) = true ->
+  expand_text (doc_toks z l) = flat_map (shape_toks (raw_z z)) l.
+Proof.
+  intros Hns. unfold expand_text. rewrite decls_doc, strip_directives_doc. now apply expand_shapes_toks.
+Qed.
+
+Lemma stmts_toks_erase z l : stmts_toks z (map erase_tokens l) = stmts_toks z l.
+Proof.
+  induction l as [|s l IH]; [reflexivity|]. destruct l as [|s' l']; [reflexivity|].
+  change (map erase_tokens (s :: s' :: l')) with (erase_tokens s :: erase_tokens s' :: map erase_tokens l').
+  rewrite !stmts_toks_cons2. change (erase_tokens s' :: map erase_tokens l') with (map erase_tokens (s' :: l')).
+  now rewrite IH.
+Qed.
+
+Lemma shapes_toks_erase z l :
+  flat_map (shape_toks z) (map_shapes erase_tokens l) = flat_map (shape_toks z) l.
+Proof.
+  induction l as [|sh l IH]; [reflexivity|]. unfold map_shapes in *. cbn [map flat_map]. rewrite IH. f_equal.
+  unfold shape_toks. cbn [map_stmts sh_name sh_stmts]. now rewrite stmts_toks_erase.
+Qed.
+
+Lemma shapes_toks_agree z1 z2 l : same_tokens z1 z2 -> flat_map (shape_toks z1) l = flat_map (shape_toks z2) l.
+Proof.
+  intros H. pose proof H as [H1 H2]. induction l as [|sh l IH]; [reflexivity|].
+  cbn [flat_map]. rewrite IH. f_equal. unfold shape_toks. now rewrite H1, (stmts_toks_agree z1 z2 _ H).
+Qed.
+
+(** two shape lists equal up to the token text frozen in comments, rendered under two
+    dictionaries: after prefix expansion the two documents are the same token stream *)
+Theorem lex_namespaces z1 z2 l1 l2 :
+  z_tau z1 = z_tau z2 ->
+  map_shapes erase_tokens l1 = map_shapes erase_tokens l2 ->
+  C05_dom z1 l1 = true -> C05_dom z2 l2 = true ->
+  exists t1 t2 ts1 ts2, render z1 l1 = Some t1 /\ render z2 l2 = Some t2 /\
+                        lex t1 = Some ts1 /\ lex t2 = Some ts2 /\
+                        expand_text ts1 = expand_text ts2.
+Proof.
+  intros Ht He D1 D2.
+  destruct (render_lexes z1 l1 D1) as (t1 & R1 & L1).
+  destruct (render_lexes z2 l2 D2) as (t2 & R2 & L2).
+  exists t1, t2, (doc_toks z1 l1), (doc_toks z2 l2).
+  repeat split; auto using lexes_lex.
+  destruct (C05_dom_parts z1 l1 D1) as [N1 _]. destruct (C05_dom_parts z2 l2 D2) as [N2 _].
+  rewrite (expand_text_doc z1 l1 N1), (expand_text_doc z2 l2 N2).
+  rewrite <- (shapes_toks_erase (raw_z z1) l1), <- (shapes_toks_erase (raw_z z2) l2), He.
+  apply shapes_toks_agree. split; [reflexivity | exact Ht].
+Qed.
+
+Lemma run_shapes_full_ns fa c thr g ns l : run_shapes fa c thr g = inl (ns, l) -> full_ns c = Some ns.
+Proof.
+  unfold run_shapes. destruct (full_ns c) as [ns0|]; [|discriminate].
+  destruct (track _ _ _ g) as [ins|e]; [|discriminate].
+  destruct (profile (pcfg_of c) ins g) as [[[P C] ID]|[|]]; try discriminate.
+  destruct (shex fa _ thr P C); [|discriminate]. intros H. now inversion H.
+Qed.
+
+Theorem run_shexc_lex_namespaces fa ns' c (thr : F fa) g ns1 l1 ns2 l2 :
+  run_shapes fa (with_rns ns' c) thr g = inl (ns1, l1) -> run_shapes fa c thr g = inl (ns2, l2) ->
+  C05_dom (sercfg_of (with_rns ns' c) ns1) l1 = true -> C05_dom (sercfg_of c ns2) l2 = true ->
+  exists t1 t2 ts1 ts2, run_shexc fa (with_rns ns' c) thr g = inl t1 /\ run_shexc fa c thr g = inl t2 /\
+                        lex t1 = Some ts1 /\ lex t2 = Some ts2 /\
+                        expand_text ts1 = expand_text ts2.
+Proof.
+  intros R1 R2 D1 D2.
+  pose proof (O6_namespaces fa ns' c thr g ns1 ns2 (run_shapes_full_ns _ _ _ _ _ _ R1)
+                            (run_shapes_full_ns _ _ _ _ _ _ R2)) as H.
+  rewrite R1, R2 in H. cbn [res_rel fst snd] in H. destruct H as (_ & _ & He).
+  destruct (lex_namespaces (sercfg_of (with_rns ns' c) ns1) (sercfg_of c ns2) l1 l2 eq_refl He D1 D2)
+    as (t1 & t2 & ts1 & ts2 & X1 & X2 & L1 & L2 & E).
+  exists t1, t2, ts1, ts2. unfold run_shexc. rewrite R1, R2.
+  fold (sercfg_of (with_rns ns' c) ns1). fold (sercfg_of c ns2). rewrite X1, X2. auto.
+Qed.
